@@ -533,6 +533,64 @@ def run_falsy_device(case, obs=None):
     return out
 
 
+def run_facade_life(case, obs=None):
+    """the facade object outlives single uses: (after_with) used in a with-block, the device re-opened by hand, the same facade used
+    again; (with_twice) entered twice; (assign) given another device by plain attribute assignment (s.device = other; the device
+    carries the table the caller chose): the method reaches the current device exactly once with that device's opcode, nothing else
+    is sent, the device's table is left alone"""
+    import pyscsi.pyscsi.scsi_enum_command as E
+    from pyscsi.pyscsi.scsi import SCSI
+    _, how, method, st = case
+    table = getattr(E, st)
+
+    class Dev(RecDev):
+        closed = 0
+
+        def close(self):
+            self.closed += 1
+
+        def open(self):
+            self.closed = 0
+    dev = Dev(table)
+    s = SCSI(dev, 512)
+    dev.opcodes = table
+    where = "%s on %s, %s" % (method, st, {"after_with": "after the facade's own with-block (device re-opened by hand)", "with_twice": "inside the facade's second with-block",
+                                          "assign": "after `facade.device = other_device`"}[how])
+    target = dev
+    try:
+        if how == "after_with":
+            with s:
+                s.testunitready()
+            dev.open()
+        elif how == "with_twice":
+            with s:
+                pass
+            dev.open()
+        else:
+            target = Dev(table)
+            s.device = target
+        del dev.calls[:]
+        del target.calls[:]
+        target.response = response_for(method, dict(F.FACADE[method][2]), 0)
+        if how == "with_twice":
+            with s:
+                F.call(s, method)
+        else:
+            F.call(s, method)
+        oc = "returned"
+    except Exception as e:   # noqa: BLE001
+        oc = "raised %s: %s" % (type(e).__name__, e)
+    key = F.FACADE[method][1]
+    lookup = "%s_OPCODE_%s" % (st.upper(), key) if key in ("9E", "A3") else key
+    out = []
+    cdbs = [c["cdb"] for c in target.calls]
+    if oc != "returned" or len(cdbs) != 1 or cdbs[0][0] != T.t10_value(st, lookup):
+        out.append(("facade_life/%s/%s" % (how, method), "%s: %s; the device saw %r, expected one command with opcode %#04x" % (where, oc, [c.hex() for c in cdbs], T.t10_value(st, lookup))))
+    if how == "assign" and (dev.calls or target.opcodes is not table):
+        out.append(("facade_life/assign/side_effects", "%s: the device left behind saw %d command(s); the new device's table %s" % (where, len(dev.calls), "was replaced" if target.opcodes is not table else "is unchanged")))
+    return out
+
+
 def run_partial_table(case, obs=None):
     """a caller-assigned command set whose entry lists only SOME of the service actions the facade knows (an SPC-2 style PERSISTENT
     RESERVE IN with READ KEYS and READ RESERVATION only): the actions it lists are served with one command each"""
@@ -746,6 +804,8 @@ def run_case(case, obs=None):
         return run_falsy_device(case, obs)
     if case[0] == "partial_table":
         return run_partial_table(case, obs)
+    if case[0] == "facade_life":
+        return run_facade_life(case, obs)
     if case[0] == "tools":
         from vf.props import c13_tools
         return c13_tools.run_tool(*c13_tools.SCRIPTS[case[1]], case[2])[0]
@@ -969,6 +1029,19 @@ def run_partition(part, tier, seed):
                     acc.outcome((repr(case), tuple(obs), tuple(k for k, _ in v)))
         return acc
     if part[0] == "falsy_device":
+        for how in ("after_with", "with_twice", "assign"):
+            for m in F.FACADE:
+                for st in F.sets_offering(m):
+                    case = ["facade_life", how, m, st]
+                    acc.case(case, nontrivial=True, key=repr(case))
+                    try:
+                        v = run_case(case, [])
+                    except Exception:
+                        import traceback
+                        v = [("harness_error", traceback.format_exc()[-600:])]
+                    for k, w in v:
+                        acc.violation(k, w, case)
+                    acc.outcome((repr(case), tuple(k for k, _ in v)))
         for listed in (["READ_KEYS"], ["READ_KEYS", "READ_RESERVATION"], ["READ_KEYS", "READ_RESERVATION", "REPORT_CAPABILITIES"]):
             for sa_name in ("READ_KEYS", "READ_RESERVATION", "REPORT_CAPABILITIES", "READ_FULL_STATUS"):
                 case = ["partial_table", listed, sa_name]
